@@ -145,7 +145,10 @@ class Ctx:
         cov = self.coverage
         cov['distinct_nontrivial'] = len(self.distinct)
         cov['obligations'] = self.obligations
-        cov['discharged'] = self.discharged
+        if self.discharged > 0:
+            cov['discharged'] = self.discharged
+        else:   # schema: a proof-level `discharged` must be >= 1; a broken run reports the count separately
+            cov['discharged_count'] = 0
         cov['checker_cmd'] = 'cd /verif/coq && make (coqc 8.16.1, full .vo build) && coqc Props/%s.v (Print Assumptions)' % self.pid
         cov['trusted_base'] = TRUSTED_BASE
         cov['axioms_reported_by_Print_Assumptions'] = self.axioms
@@ -167,19 +170,40 @@ class Ctx:
 
 
 # ---------------------------------------------------------------- regeneration + build
-GENERATORS = ['gen_symmetries']
+def generators():
+    """every tr/gen_*.py module (auto-discovered) must offer generate_all(repo) -> {file: text}"""
+    return sorted(os.path.basename(f)[:-3] for f in glob.glob(os.path.join(VERIF, 'tr', 'gen_*.py')))
+
+
+def write_if_changed(path, text):
+    old = open(path).read() if os.path.exists(path) else None
+    if old != text:
+        with open(path, 'w') as fh:
+            fh.write(text)
+        return True
+    return False
+
+
+def write_coqproject():
+    """_CoqProject lists every .v under Base Gen Model Proofs Props (coqdep orders them)"""
+    files = []
+    for d in ('Base', 'Gen', 'Model', 'Proofs', 'Props'):
+        files += sorted(os.path.relpath(f, COQ) for f in glob.glob(os.path.join(COQ, d, '*.v')))
+    text = '-Q . SV\n' + '\n'.join(files) + '\n'
+    if write_if_changed(os.path.join(COQ, '_CoqProject'), text) or not os.path.exists(os.path.join(COQ, 'Makefile')):
+        sh('coq_makefile -f _CoqProject -o Makefile', cwd=COQ)
 
 
 def regen():
     """Regenerate Gen/*.v from the working tree.  Returns list of (generator, error)."""
     errs = []
     from pygallina import Unsupported
-    for g in GENERATORS:
+    for g in generators():
         try:
             mod = importlib.import_module(g)
             for fname, text in mod.generate_all(REPO).items():
-                mod.write_if_changed(os.path.join(COQ, 'Gen', fname), text)
-        except (Unsupported, SyntaxError, KeyError, IndexError, AttributeError, ValueError) as e:
+                write_if_changed(os.path.join(COQ, 'Gen', fname), text)
+        except (Unsupported, SyntaxError, KeyError, IndexError, AttributeError, ValueError, TypeError, OSError) as e:
             errs.append((g, '%s: %s' % (type(e).__name__, e)))
     return errs
 
@@ -198,8 +222,7 @@ class Lock:
 def coq_make(timeout=1500):
     """Incremental full .vo build.  Returns (ok, failing_file or None, log)."""
     with Lock():
-        if not os.path.exists(os.path.join(COQ, 'Makefile')):
-            sh('coq_makefile -f _CoqProject -o Makefile', cwd=COQ)
+        write_coqproject()
         rc, out = sh('make -j%d -k' % NPROC, timeout=timeout, cwd=COQ)
     if rc == 0:
         return True, [], out
